@@ -446,6 +446,9 @@ func makeSources(w *WSpec) {
 	for _, d := range w.MkDirs {
 		os.MkdirAll(d, 0777)
 	}
+	for f, c := range w.PreFiles {
+		os.WriteFile(f, []byte(c), 0644)
+	}
 	for _, f := range w.SourceFiles() {
 		os.MkdirAll(filepath.Dir(f), 0777)
 		c := f
